@@ -7,6 +7,7 @@ runs.  Swarm style: every session draws its own contract pool, operation mix, S1
 enabled fault kinds.
 """
 
+import json
 import random
 from typing import Any, Dict, List, Optional, Tuple
 
@@ -142,7 +143,9 @@ def make_fault(rng: random.Random, ctx: GenCtx, cid: str, kinds: List[str], opki
     if kind == "io":
         if opkind not in ("cli", "printer", "regex", "group"):
             return None
-        return {"kind": "io", "k": rng.randrange(1, 5), "exc": rng.choice(["ENOSPC", "EACCES"])}
+        exc = rng.choice(["ENOSPC", "EACCES", "TORN"])
+        # TORN counts write-mode opens only: 1 or 2 reaches the report / the first DOT files
+        return {"kind": "io", "k": rng.randrange(1, 3 if exc == "TORN" else 5), "exc": exc}
     return None
 
 
@@ -321,7 +324,13 @@ class SessionBuilder:
         return self.add({"op": "noise", "n": self.rng.choice([10, 100, 1000, 5000]), "seed": self.rng.randrange(2**31)})
 
     def gc(self) -> Dict[str, Any]:
+        if self.rng.random() < 0.3:
+            return self.gc_knob()
         return self.add({"op": "gc"})
+
+    def gc_knob(self) -> Dict[str, Any]:
+        # collector thresholds as a per-session tuning knob (DESIGN §2.4)
+        return self.add({"op": "gc", "t": self.rng.choice(["off", "on", [700, 10, 10], [50, 3, 3], [200, 2, 2], [20000, 50, 50]])})
 
     def drop(self) -> Optional[Dict[str, Any]]:
         cands = [h for h, _ in self.teals] + [h for h, _, _ in self.tealers]
@@ -371,6 +380,8 @@ def gen_c14_session(seed: int, index: int, ctx: GenCtx, faulty: bool, max_ops: i
     fault_p = rng.choice([0.1, 0.2, 0.3]) if faulty else 0.0
     nops = rng.randrange(3, max_ops + 1)
     keep_export_dir = rng.random() < 0.3  # the export directory outlives the runs of this session
+    if rng.random() < 0.3:
+        b.gc_knob()
     while len(b.ops) < nops:
         if keep_export_dir:
             for o_ in b.ops:
@@ -601,6 +612,23 @@ def make_group(rng: random.Random, ctx: GenCtx) -> Optional[Dict[str, Any]]:
         ctype = "LogicSig" if rng.random() < 0.3 else "ApprovalProgram"
         contracts.append({"name": "K%d" % j, "cid": c["cid"], "type": ctype, "version": c["version"], "functions": fs})
 
+    # further operations: a function executed by a second operation, and one operation of two
+    # transactions (names are the canonical ones finish() assigns: f<i> by sorted path)
+    extra: List[Dict[str, Any]] = []
+    role_of = lambda c: "logic_sig" if c["type"] == "LogicSig" else "application"  # noqa: E731
+    if rng.random() < 0.3:
+        c = rng.choice(contracts)
+        fn = "f%d" % rng.randrange(len(c["functions"]))
+        t = {"txn_id": "T1", "txn_type": "pay" if role_of(c) == "logic_sig" else "appl", role_of(c): (c["name"], fn)}
+        extra.append({"operation": "op_again_%s_%s" % (c["name"], fn), "transactions": [t]})
+    if rng.random() < 0.2:
+        ts = []
+        for n_ in (0, 1):
+            c = rng.choice(contracts)
+            fn = "f%d" % rng.randrange(len(c["functions"]))
+            ts.append({"txn_id": "T%d" % (n_ + 1), "txn_type": "pay" if role_of(c) == "logic_sig" else "appl", "absolute_index": n_, role_of(c): (c["name"], fn)})
+        extra.append({"operation": "op_pair", "transactions": ts})
+
     def finish(cs: List[Dict[str, Any]], shuffle: bool) -> Tuple[str, Dict[str, List[str]]]:
         cs2 = []
         pmap: Dict[str, List[str]] = {}
@@ -618,6 +646,7 @@ def make_group(rng: random.Random, ctx: GenCtx) -> Optional[Dict[str, Any]]:
             if shuffle:
                 rng.shuffle(named)
             cs2.append(dict(c, functions=named))
+        groups.extend(json.loads(json.dumps(extra)))
         if shuffle and rng.random() < 0.5:
             cs2.reverse()
         if shuffle:
